@@ -270,6 +270,10 @@ def jobs_c05(tier):
     for p in pats:
         for deep in (False, True):
             js.append((h_option_flatten, (p, deep), 1800))
+            js.append((h_option_flatten, (p, deep, 'ByteMaskedArray', bool(sum(p) % 2)), 1800))
+            if not any(p):
+                js.append((h_option_flatten, (p, deep, 'ByteMaskedArray', True), 1800))
+                js.append((h_option_flatten, (p, deep, 'UnmaskedArray'), 1800))
     return js
 
 
@@ -334,16 +338,31 @@ def flatten_stub(nc, deep):
 
 
 @guard
-def h_option_flatten(pattern, deep):
-    """IndexedOptionArray64::offsets_and_flattened: flattening through an option node - a missing list contributes nothing (an empty list in
-    the offsets), present lists come in index order; below the list level the option node is rebuilt around the flattened content"""
+def h_option_flatten(pattern, deep, cls='IndexedOptionArray64', variant=True):
+    """offsets_and_flattened of an option-type node (IndexedOptionArray64; ByteMaskedArray of either polarity, whose content may be longer
+    than the mask; UnmaskedArray): flattening through an option node - a missing list contributes nothing (an empty list in the offsets),
+    present lists come in order, nothing beyond the entries of the node is included; below the list level the option node is rebuilt around
+    the flattened content"""
     pattern = tuple(bool(x) for x in pattern)
     n = len(pattern)
-    nc = NodeCtx(['IA', 'IDX', 'CNT', 'UTL', 'KD', 'IDS', 'NA'], [], unwind=max(8, 3 * n + 6))
+    nc = NodeCtx(['IA', 'BMA', 'UMA', 'IDX', 'CNT', 'UTL', 'KD', 'IDS', 'NA'], [], unwind=max(8, 3 * n + 6))
     LEN, ITEM, FLAT = flatten_stub(nc, deep)
-    this, idx = build_option64(nc, pattern)
+    mk = None
+    if cls == 'IndexedOptionArray64':
+        this, idx = build_option64(nc, pattern)
+        sym = '_ZNK7awkward14IndexedArrayOfIlLb1EE21offsets_and_flattenedEll'
+    elif cls == 'ByteMaskedArray':
+        this, mk = build_bytemasked(nc, pattern, variant)
+        idx = [BV(i) for i in range(n)]
+        sym = '_ZNK7awkward15ByteMaskedArray21offsets_and_flattenedEll'
+    else:
+        if any(pattern):
+            raise Unsupported('an UnmaskedArray has no missing entries')
+        this, _vals = build_unmasked(nc, n)
+        idx = [BV(i) for i in range(n)]
+        sym = '_ZNK7awkward13UnmaskedArray21offsets_and_flattenedEll'
     nc.m.record('ret', {})
-    out = nc.m.call('_ZNK7awkward14IndexedArrayOfIlLb1EE21offsets_and_flattenedEll', [Ptr('ret', 0), this, BV(2 if deep else 1), BV(0)])
+    out = nc.m.call(sym, [Ptr('ret', 0), this, BV(2 if deep else 1), BV(0)])
     obls = [('flatten does not raise', out.raised)]
     offs, _ = nc.index_terms(out.mem, Ptr('ret', 0), 'returned offsets')
     res = decode(nc, out.mem, nc.m.cell('ret', 56))
@@ -371,9 +390,17 @@ def h_option_flatten(pattern, deep):
 
     def replay(model, ent):
         iv = [model.eval(x, model_completion=True).as_signed_long() for x in idx]
+        if cls != 'IndexedOptionArray64':
+            iv = [(-1 if pattern[i] else i) for i in range(n)]
         lc = max([model.eval(nc.lencontent, model_completion=True).as_signed_long()] + [v + 1 for v in iv])
         if lc > 60:
             return False, 'content too long to replay', dict(index=iv)
+        if cls == 'ByteMaskedArray':
+            node = 'bytemask %s %d ' % (fullnative.ints([model.eval(x, model_completion=True).as_signed_long() for x in mk]), 1 if variant else 0)
+        elif cls == 'UnmaskedArray':
+            node = 'unmasked '
+        else:
+            node = 'option64 %s ' % fullnative.ints(iv)
         head, inner = inner_lists(lc)
         if deep:
             vals, o2, inner2 = [], [0], []
@@ -390,13 +417,13 @@ def h_option_flatten(pattern, deep):
                 acc += len(rows); oo.append(acc)
             head = 'i64 %s listoffset64 %s listoffset64 %s ' % (fullnative.ints(vals), fullnative.ints(oi), fullnative.ints(oo))
             exp = [None if v < 0 else [x for r in inner2[v] for x in r] for v in iv]
-            prog = head + 'option64 %s flatten 2' % fullnative.ints(iv)
+            prog = head + node + 'flatten 2'
         else:
             exp = [x for v in iv if v >= 0 for x in inner[v]]
-            prog = head + 'option64 %s flatten 1' % fullnative.ints(iv)
-        return akrun_check(prog, exp, 'IndexedOptionArray64(index=%s)::flatten(axis=%d)' % (iv, 2 if deep else 1))
-    return mdischarge(nc.m, 'IndexedOptionArray64::offsets_and_flattened pattern=%s %s' % (''.join('N' if p else 'v' for p in pattern), 'below' if deep else 'at list level'), obls,
-                      [('index is not the identity', z3.Or([idx[i] != i for i in range(n) if not pattern[i]] + [z3.BoolVal(False)]))] if not all(pattern) else [],
+            prog = head + node + 'flatten 1'
+        return akrun_check(prog, exp, '%s(valid entries -> content %s; content of %d lists)::flatten(axis=%d)' % (cls, iv, lc, 2 if deep else 1))
+    return mdischarge(nc.m, '%s::offsets_and_flattened pattern=%s %s%s' % (cls, ''.join('N' if p else 'v' for p in pattern), 'below' if deep else 'at list level', '' if cls != 'ByteMaskedArray' else ' valid_when=%s' % variant), obls,
+                      ([('index is not the identity', z3.Or([idx[i] != i for i in range(n) if not pattern[i]] + [z3.BoolVal(False)]))] if not all(pattern) and cls == 'IndexedOptionArray64' else []) + ([('a content longer than the node', nc.lencontent > n)] if cls == 'ByteMaskedArray' else []),
                       replay=replay, prefer=[nc.lencontent <= 6] + [x >= -2 for x in idx],
                       extra=dict(bounds='%d entries, missing pattern concrete (case split), index values symbolic, inner list lengths <= 2 (uninterpreted)' % n))
 
